@@ -79,6 +79,8 @@ type Exec struct {
 	NoTypedNil func(t types.Type) bool
 	// MapValuesNonNil reports whether present entries of maps of this type are never nil.
 	MapValuesNonNil func(t types.Type) bool
+	// Aliases: per function, contract identifier -> current local name (renamed locals).
+	Aliases map[*ssa.Function]map[string]string
 	// FuncLabel overrides the function name used in obligation names.
 	FuncLabel func(fn *ssa.Function) string
 	// OnInstr is called before every instruction.
